@@ -319,6 +319,12 @@ fn check(c: &Case, rep: &mut Rep) -> Result<(), String> {
         b.sort();
         ensure!(a == b, "sorted pipeline: output is not a permutation of the reference output");
     } else {
+        // "never drops, duplicates or reorders": the unsorted stages keep the order of their input
+        for (what, o) in [("bounded", &r.out), ("unbounded", &reference.out)] {
+            if let Some(w) = o.windows(2).find(|w| w[0].index >= w[1].index) {
+                return Err(format!("unsorted pipeline ({} channels): message {} delivered before message {}", what, w[0].index, w[1].index));
+            }
+        }
         ensure!(norm_ids(&r.out) == norm_ids(&reference.out), "message sequence / lifecycle assignment differs from the run with unbounded channels");
         for (x, y) in r.out.iter().zip(reference.out.iter()) {
             ensure!(x.payload == y.payload && x.reception_time_us == y.reception_time_us && x.ecu == y.ecu, "message {} altered", x.index);
